@@ -79,6 +79,11 @@ func (b *baseCockpit) remove(t *task.Task) {
 		}
 	}
 
+	// a task that was skipped or failed before its output started never started the spinner
+	if b.spinner == nil {
+		return
+	}
+
 	var mark = aurora.Green("✔")
 	if t.Errored {
 		mark = aurora.Red("✗")
